@@ -41,7 +41,12 @@ EXPLANATION = ("Exhaustive: every element symbol of RDKit's periodic table x cha
                "reactions + corpus/molecules.txt (MolToGraph / GraphToMol attribute copying under three flag settings, hydrogen conversions, "
                "RDKit oracle), all corpus reactions and renumberings through the three GML routes.  The predicates the theorems are stated "
                "with (total_h, h_dom, gwfb, no_H, no_tgh, its_ok, all_tgh) are evaluated by the model on every case and compared with "
-               "independent Python definitions; the distribution reports how many cases lie in each theorem's domain.  Theorems: props/C10.v.")
+               "independent Python definitions; the distribution reports how many cases lie in each theorem's domain.  Round 5: reaction-level wrappers "
+               "(rsmi_to_its options, graph_to_rsmi / its_to_rsmi / gml_to_smart up to the RWMol handed to RDKit, observed on the real call by a spy), "
+               "implicit_hydrogen(reindex), the state NXToGML.transform hands to _rule_grammar (spy), DFS-style SMILES rewriting, partially mapped "
+               "molecules, rule names / large and 0-based ids / sanitize=False passed positionally, object histories (the same graph or ITS object "
+               "converted, edited in place without changing counts, converted again; results mutated by the caller, question asked again).  "
+               "Theorems: props/C10.v.")
 TRUSTED_BASE = [
     "Coq 8.16.1 kernel + vm_compute (no native_compute)",
     "hand-written model coq/model/C10_Model.v tied to synkit/IO/{nx_to_gml,gml_to_nx,chem_converter,mol_to_graph,graph_to_mol}.py and "
